@@ -94,12 +94,12 @@ fn cases(tier: Tier) -> Vec<Case> {
     }
     // a menu of LARGE layouts (sizes around powers of two), each relation of b's list to a's
     for size in [7usize, 8, 9, 15, 16, 17, 33, 63, 64, 65, 70, 130, 257] {
-        for relation in 0..9u8 {
+        for relation in 0..10u8 {
             out.push(Case { nuni: 0, a: NumSpec::constant(1.5), b: NumSpec::constant(-2.5), storage: 0, large: Some((size, relation)) });
         }
     }
     // sequential history passes (relation code 100: first order, 101: second order)
-    for rel in [100u8, 101, 102] {
+    for rel in [100u8, 101, 102, 103, 104] {
         out.push(Case { nuni: 4, a: NumSpec::constant(1.5), b: NumSpec::constant(-2.5), storage: 0, large: Some((0, rel)) });
     }
     out
@@ -127,6 +127,16 @@ fn large_lists(size: usize, relation: u8) -> (Vec<usize>, Vec<usize>) {
             // first and last name fixed, the middle reversed
             let mut v: Vec<usize> = (0..size).collect();
             v[1..size - 1].reverse();
+            v
+        }
+        9 => {
+            // the same list with interior names replaced by NEW names: neither list contains the other, the first
+            // name and the name at the last position coincide
+            let mut v: Vec<usize> = (0..size).collect();
+            v[1] = size;
+            if size > 4 {
+                v[size / 2] = size + 1;
+            }
             v
         }
         _ => {
@@ -448,6 +458,105 @@ fn check_sequence(second: bool, case: &Case, idx: u64, acc: &mut Acc) {
     acc.sample(cj);
 }
 
+/// sizes beyond the dense reference: a first-order pair on 66 000 names (positions past 65 535) and a second-order
+/// pair on 1 100 names (past 1 024, not a multiple of 64); expected entries are computed name by name on the fly
+fn check_huge(second: bool, case: &Case, idx: u64, acc: &mut Acc) {
+    use rateslib::dual::{Gradient1, Gradient2};
+    let cj = || serde_json::to_value(case).unwrap();
+    acc.nontrivial();
+    let gv = |name: usize, side: usize| 0.5 + ((name * 7 + side * 3) % 11) as f64 * 0.125 + 1.0 / (3.0 + (name % 97) as f64);
+    if !second {
+        let size = 66_000usize;
+        let uni: Vec<String> = (0..size + 40).map(|i| format!("n{}", i)).collect();
+        let la: Vec<usize> = (0..size).collect();
+        let a = Dual::try_new(1.5, la.iter().map(|i| uni[*i].clone()).collect(), la.iter().map(|n| gv(*n, 0)).collect()).unwrap();
+        // b: a few names near the start, around 65 535 and at the end, in descending order, plus new names
+        let lists: Vec<Vec<usize>> = vec![
+            vec![65_999, 65_537, 65_536, 65_535, 65_534, 300, 256, 255, 1, 0],
+            vec![size + 3, 65_999, 65_536, 7, size + 1],
+            (0..size).rev().step_by(997).collect(),
+        ];
+        for lb in lists.iter() {
+            acc.evals_add(3);
+            let b = Dual::try_new(-2.5, lb.iter().map(|i| uni[*i].clone()).collect(), lb.iter().map(|n| gv(*n, 1)).collect()).unwrap();
+            for (op, got) in [("add", &a + &b), ("mul", &b * &a), ("sub", &a - &b)] {
+                let g = got.gradient1(uni.clone());
+                let mut bad = None;
+                for n in 0..size + 40 {
+                    let (ga, gb) = (if n < size { gv(n, 0) } else { 0.0 }, if lb.contains(&n) { gv(n, 1) } else { 0.0 });
+                    let want = match op {
+                        "add" => ga + gb,
+                        "sub" => ga - gb,
+                        _ => ga * -2.5 + gb * 1.5,
+                    };
+                    if !close_scaled(g[n], want, 1e-12, want.abs().max(1.0)) {
+                        bad = Some((n, want, g[n]));
+                        break;
+                    }
+                }
+                if let Some((n, want, got)) = bad {
+                    acc.violate(&format!("huge/Dual/{}", op), idx, cj(), json!({"names": size, "other_operand_names": lb.len(), "name": n, "want": want}), json!(got));
+                }
+            }
+            // read back through a short request that is not the stored list
+            let req: Vec<String> = lb.iter().filter(|i| **i < size).map(|i| uni[*i].clone()).collect();
+            let g = a.gradient1(req.clone());
+            let want: Vec<f64> = lb.iter().filter(|i| **i < size).map(|i| gv(*i, 0)).collect();
+            if g.to_vec() != want {
+                acc.violate("huge/Dual/gradient1", idx, cj(), json!({"request": req, "want": want}), json!(g.to_vec()));
+            }
+        }
+    } else {
+        let size = 1_100usize;
+        let nv = size + 4;
+        let uni: Vec<String> = (0..nv).map(|i| format!("n{}", i)).collect();
+        let hv = |i: usize, j: usize, side: usize| if i == j || i + 1 == j || j + 1 == i || (i.min(j) == 0 && i.max(j) % 64 == 1) { 0.25 + ((i + j + side) % 5) as f64 * 0.0625 } else { 0.0 };
+        let mk = |l: &Vec<usize>, v: f64, side: usize| -> Dual2 {
+            let mut h = Vec::with_capacity(l.len() * l.len());
+            for p in l {
+                for q in l {
+                    h.push(0.5 * hv(*p, *q, side));
+                }
+            }
+            Dual2::try_new(v, l.iter().map(|i| uni[*i].clone()).collect(), l.iter().map(|n| gv(*n, side)).collect(), h).unwrap()
+        };
+        let la: Vec<usize> = (0..size).collect();
+        let a = mk(&la, 1.5, 0);
+        let lists: Vec<Vec<usize>> = vec![(0..size).filter(|i| i % 2 == 1).collect(), { let mut v: Vec<usize> = (0..size).collect(); v[1] = size; v[size / 2] = size + 1; v }, (0..size).rev().collect()];
+        for lb in lists.iter() {
+            acc.evals_add(2);
+            let b = mk(lb, -2.5, 1);
+            for (op, got) in [("mul", &a * &b), ("add", &b + &a)] {
+                let g = got.gradient1(uni.clone());
+                let h = got.gradient2(uni.clone());
+                let inb: Vec<bool> = (0..nv).map(|n| lb.contains(&n)).collect();
+                let mut bad = None;
+                'outer: for i in 0..nv {
+                    let (gai, gbi) = (if i < size { gv(i, 0) } else { 0.0 }, if inb[i] { gv(i, 1) } else { 0.0 });
+                    let wg = if op == "mul" { gai * -2.5 + gbi * 1.5 } else { gai + gbi };
+                    if !close_scaled(g[i], wg, 1e-12, wg.abs().max(1.0)) {
+                        bad = Some((i, i, wg, g[i]));
+                        break;
+                    }
+                    for j in 0..nv {
+                        let (gaj, gbj) = (if j < size { gv(j, 0) } else { 0.0 }, if inb[j] { gv(j, 1) } else { 0.0 });
+                        let (ha, hb) = (if i < size && j < size { hv(i, j, 0) } else { 0.0 }, if inb[i] && inb[j] { hv(i, j, 1) } else { 0.0 });
+                        let wh = if op == "mul" { ha * -2.5 + hb * 1.5 + gai * gbj + gaj * gbi } else { ha + hb };
+                        if !close_scaled(h[[i, j]], wh, 1e-12, wh.abs().max(1.0)) {
+                            bad = Some((i, j, wh, h[[i, j]]));
+                            break 'outer;
+                        }
+                    }
+                }
+                if let Some((i, j, want, got)) = bad {
+                    acc.violate(&format!("huge/Dual2/{}", op), idx, cj(), json!({"names": size, "pair": [i, j], "want": want}), json!(got));
+                }
+            }
+        }
+    }
+    acc.sample(cj);
+}
+
 /// layout differential at awkward magnitudes: the same two numbers (by name) combined with shared lists, with
 /// separate same-order lists, with the second list re-ordered and with an extra zero-derivative name must give the
 /// SAME result by name, bit for bit, also where a product of derivatives is close to the largest double or subnormal
@@ -531,6 +640,10 @@ fn check_differential(case: &Case, idx: u64, acc: &mut Acc) {
 pub fn check(case: &Case, idx: u64, acc: &mut Acc) {
     if let Some((_, 102)) = case.large {
         check_differential(case, idx, acc);
+        return;
+    }
+    if let Some((_, rel @ (103 | 104))) = case.large {
+        check_huge(rel == 104, case, idx, acc);
         return;
     }
     if let Some((_, relation)) = case.large {
@@ -891,9 +1004,9 @@ pub fn run(ctx: &Ctx, replay_file: Option<String>) -> ! {
          Non-trivial: pairs whose vars_cmp class (observed through the public vars_cmp) is not ArcEquivalent; the run \
          refuses to report if any of the five classes or the 'equal pair' class is empty. Oracle: by-name RefDual \
          result, union of names each once, matching shapes, == iff equal by name with missing == 0, also when a zero derivative is written -0.0 (negative-zero twin of every operand that has a zero entry). Non-standard memory layouts: every operand is also built through clone_from with a reversed-memory gradient and a column-major second-derivative array and must equal its standard form, compare with the other operand as that does, and add / multiply to the by-name reference. The re-alignment entry points (to_union_vars, to_combined_vars, to_new_vars onto a covering list, new_from) leave every number unchanged by name on one shared list. Layout differential: five derivative tables (products near the largest double, subnormal products, ordinary, mixed, signed zeros) combined under five layouts (shared list, separate, re-ordered, extra zero-derivative name, both) must give bit-identical results by name for + - * /, the stored half-Hessian included. History independence: on one thread the 65 x 65 ordered pairs of layouts over 4 names are combined (+, *, /, ==) one after the other, forwards and backwards, each operand built fresh. In addition a \
-         menu of LARGE layouts (7 .. 17, 33, 63, 64, 65, 70, 130, 257 names, non-dyadic derivative values) x 9 relations of the \
+         menu of LARGE layouts (7 .. 17, 33, 63, 64, 65, 70, 130, 257 names, non-dyadic derivative values) x 10 relations of the \
          second list to the first (same, rotated, reversed, every other name, superset, disjoint, overlapping, ends fixed \
-         with the middle reversed, thinned and pairwise swapped) against a dense by-name reference.",
+         with the middle reversed, thinned and pairwise swapped, interior names replaced by new ones); one first-order pair on 66 000 names and one second-order pair on 1 100 names checked name by name against a dense by-name reference.",
         json!({"names": ctx.tier.pick(3, 4), "cases": cs.len(), "value_pairs": [[1.5, -2.5], [1.5, 1.5]]}),
     )
     .assume("RefDual reference model (harness/src/refdual.rs)")
